@@ -18,8 +18,8 @@
      AJunk id n              n opaque bytes of unknown provenance
 
    Definitions only; lemmas are in Proofs/SymFacts.v.  No axioms, no parameters. *)
-From Coq Require Import String Ascii.
 From Coq Require Import List NArith Arith Bool.
+From Coq Require Import Strings.Byte.
 From AHK Require Import Lib.Res Lib.ByteStr Model.Tlv.
 Import ListNotations.
 
@@ -122,11 +122,24 @@ Fixpoint bytes_eqb (a b : bytes) : bool :=
   | _, _ => false
   end.
 
-Definition str (s : string) : msg :=
-  map (fun c => AByte (N_of_ascii c)) (list_ascii_of_string s).
+(* protocol labels are written as string literals; the literal is turned into
+   its byte values at parse time (String Notation), so that neither Coq's
+   String library nor Ascii is part of the model or of the extracted code *)
+Inductive label := Lbl (b : list N).
+Definition lbl_parse (l : list Byte.byte) : label := Lbl (map Byte.to_N l).
+Definition lbl_print (x : label) : option (list Byte.byte) :=
+  match x with
+  | Lbl b => Some (map (fun n => match Byte.of_N n with Some c => c | None => Byte.x00 end) b)
+  end.
+Declare Scope lbl_scope.
+Delimit Scope lbl_scope with lbl.
+Bind Scope lbl_scope with label.
+String Notation label lbl_parse lbl_print : lbl_scope.
+
+Definition str (s : label) : msg := match s with Lbl b => lit b end.
 
 (* the 12-byte nonce  00 00 00 00 ‖ 8-byte label *)
-Definition nonce (label : string) : msg := lit [0;0;0;0]%N ++ str label.
+Definition nonce (l : label) : msg := lit [0;0;0;0]%N ++ str l.
 
 (* drop leading zero bytes (int.from_bytes(..., "big") forgets them) *)
 Fixpoint strip0 (m : msg) : msg :=
@@ -187,7 +200,7 @@ Definition srp_ks (code salt : msg) (b : N) (A : msg) : msg :=
   end.
 (* M1 = H(Hgroup ‖ H(I) ‖ salt ‖ A ‖ B ‖ K),  M2 = H(A ‖ M1 ‖ K) *)
 Definition srp_m1 (salt A B K : msg) : msg :=
-  s_hash (str "Hgroup|H(Pair-Setup)"%string ++ salt ++ A ++ B ++ K).
+  s_hash (str "Hgroup|H(Pair-Setup)" ++ salt ++ A ++ B ++ K).
 Definition srp_m2 (A M1 K : msg) : msg := s_hash (A ++ M1 ++ K).
 
 (* ---- symbolic TLV layer ---- *)
